@@ -382,6 +382,39 @@ def g_spec(files):
     fns = 0
     spec_sites = 0
     viol = []
+    # helpers that are speculative *by construction*: a fn with a ParseStream parameter that touches it only through
+    # `.fork()`, `.advance_to(..)` and read-only probes - it parses a fork and commits on success
+    safe_helpers = set()
+    for f in files:
+        toks = f.toks
+        n = len(toks)
+        for i in range(n - 4):
+            if toks[i].text == 'fn' and toks[i + 1].kind == 'ident':
+                j = i + 2
+                while j < n and toks[j].text != '(':
+                    j += 1
+                if j >= n:
+                    continue
+                pe = match_close(toks, j)
+                params = toks[j:pe]
+                live = None
+                for q in range(len(params) - 2):
+                    if params[q].kind == 'ident' and params[q + 1].text == ':' and params[q + 2].text == 'ParseStream':
+                        live = params[q].text
+                if live is None:
+                    continue
+                k = pe
+                while k < n and toks[k].text not in ('{', ';'):
+                    k += 1
+                if k >= n or toks[k].text == ';':
+                    continue
+                be = match_close(toks, k)
+                body = [t.text for t in toks[k:be]]
+                uses = [q for q in range(len(body)) if body[q] == live]
+                if uses and 'fork' in body and 'advance_to' in body and all(
+                        body[q + 1:q + 3] in (['.', 'fork'], ['.', 'advance_to'], ['.', 'span'], ['.', 'is_empty'], ['.', 'peek'], ['.', 'cursor'])
+                        for q in uses):
+                    safe_helpers.add(toks[i + 1].text)
     for f in files:
         toks = f.toks
         n = len(toks)
@@ -456,6 +489,9 @@ def g_spec(files):
                         if seg[q] == live:
                             nxt = seg[q + 1:q + 4]
                             if nxt[:2] == ['.', 'fork']:
+                                continue
+                            # the live stream handed to a helper that forks and commits on success only
+                            if any(h in seg[:q] for h in safe_helpers) and q > 0 and seg[q - 1] in ('(', ','):
                                 continue
                             uses_live = True
                             # input.parse::<T>()
